@@ -5,6 +5,7 @@ mod gen;
 mod insp;
 mod replay;
 mod run;
+mod tree;
 mod val;
 
 use serde_json::json;
@@ -110,7 +111,7 @@ fn record(prop: &str, fam: &str, n: usize, seed: u64, size: usize, len: usize, k
     while k < n {
         let budget = 2 + r.below(size);
         let g = gen::gen_wf(&mut r, &f, budget);
-        let inp = gen::gen_input(&mut r, &f, len);
+        let inp = gen::gen_input(&mut r, &f, len, fam == "nst");
         let kind = r.pick(kinds).clone();
         let ety = r.pick(etys).clone();
         let mode = if r.chance(1, 2) { "E" } else { "C" };
